@@ -1,6 +1,8 @@
 import EinxModel.Proofs.SolveUnroll
 import EinxModel.Proofs.SolveBroadcast
 import EinxModel.Proofs.SolveNum
+import EinxModel.Proofs.SolveRename
+import EinxModel.Proofs.NotationParseCases
 /-!
 C07, the shorthands that live at stage 2/3 (`namedtensor/stage2/solve.py`, `stage3/solve.py`):
 "an ellipsis = its written-out repetition; a number = a fresh axis of that length; a scalar size for
@@ -255,6 +257,122 @@ example : solveAll (numForm exNum "n" 3) =
 /-- `freshVars` is not vacuous: the name `b.0` next to `b...` is not fresh (its variable is the one
 of the first repetition of `b`). -/
 example : freshVars ⟨[⟨.list [.ellipsis "e0" (.axis "b"), .axis "b.0"], none⟩], []⟩ (toFun [("e0", 2)]) "b.0" = false := by
+  decide +kernel
+
+/-! ### (2) An anonymous `...` = one shared named ellipsis -/
+
+/-- **Renaming of axis names preserves the solutions.**  Let `f` be injective on the names of `inp`
+(axis occurrences and constraints) and act as a bijection on the expanded variables (`renOK`:
+decidable; automatic when no name contains a `.`).  Then the rank systems of `inp` and of the renamed
+input have the same solutions, and the value solutions correspond: the variable `f n ++ .i.j` of the
+renamed input carries the length of `n.i.j`; same shapes.  Equal names stay equal names, so an
+ellipsis axis shared between expressions stays shared. -/
+theorem rename_preserves_sols (f : String → String) (inp : Input)
+    (hinj : ∀ a ∈ inp.names, ∀ b ∈ inp.names, f a = f b → a = b) (ρ : Var → Nat)
+    (hok : renOK f inp ρ = true) :
+    (Sat (rankSystem true (renameInput f inp)) ρ ↔ Sat (rankSystem true inp) ρ) ∧
+    (∀ σ, Sols inp ρ σ → namesOK (renameInput f inp) ρ = true →
+      ∃ σ', Sols (renameInput f inp) ρ σ' ∧ (∀ a ∈ inp.axes ρ, σ' (renVar f a) = σ a.2.2) ∧
+        shapesOf (renameInput f inp) ρ σ' = shapesOf inp ρ σ) ∧
+    (∀ σ', Sols (renameInput f inp) ρ σ' → namesOK inp ρ = true →
+      ∃ σ, Sols inp ρ σ ∧ (∀ a ∈ inp.axes ρ, σ a.2.2 = σ' (renVar f a)) ∧
+        shapesOf inp ρ σ = shapesOf (renameInput f inp) ρ σ') := by
+  have hrank := rename_rank f inp hinj ρ
+  refine ⟨hrank, ?_, ?_⟩
+  · intro σ hs hn
+    have link := pushRen_link f inp ρ σ hok
+    obtain ⟨hiff, hsh⟩ := rename_semSat f inp hinj ρ σ (pushRen f inp ρ σ) link
+    obtain ⟨h1, h2, h3⟩ := sem_sat _ ρ _ hn (hiff.mpr (sat_sem inp ρ σ hs.2))
+    refine ⟨_, ⟨hrank.mpr hs.1, h1⟩, ?_, ?_⟩
+    · intro a ha
+      have := h2 (renAxis f a) (mem_renameInput_axes.mpr ⟨a, ha, rfl⟩)
+      simp only [renAxis] at this
+      rw [this]; exact link a ha
+    · rw [h3, hsh, shapes_of_sat inp ρ σ hs.2]
+  · intro σ' hs hn
+    have link := pullRen_link f inp ρ σ' hok
+    obtain ⟨hiff, hsh⟩ := rename_semSat f inp hinj ρ (pullRen f inp ρ σ') σ' link
+    obtain ⟨h1, h2, h3⟩ := sem_sat inp ρ _ hn (hiff.mp (sat_sem _ ρ σ' hs.2))
+    refine ⟨_, ⟨hrank.mp hs.1, h1⟩, ?_, ?_⟩
+    · intro a ha
+      rw [h2 a ha]; exact (link a ha).symm
+    · rw [h3, ← hsh, shapes_of_sat _ ρ σ' hs.2]
+
+/-- The anonymous ellipsis variable of the pinned source (regenerated on every run). -/
+def anonAxis : String := Einx.Extracted.anonymousVariableName
+
+theorem swapName_inj (a b : String) (names : List String) (hb : b ∉ names) :
+    ∀ x ∈ names, ∀ y ∈ names, swapName a b x = swapName a b y → x = y := by
+  intro x hx y hy h
+  unfold swapName at h
+  by_cases h1 : x = a
+  · by_cases h2 : y = a
+    · rw [h1, h2]
+    · simp only [h1, ↓reduceIte, h2] at h
+      exact absurd (h ▸ hy) hb
+  · by_cases h2 : y = a
+    · simp only [h1, ↓reduceIte, h2] at h
+      exact absurd (h ▸ hx) hb
+    · simpa only [h1, ↓reduceIte, h2] using h
+
+/-- **Anonymous `...` = one shared named ellipsis.**  In the stage-1 trees an anonymous ellipsis is
+the ellipsis over the axis `.anonymous_ellipsis_axis` (`anonymous_ellipsis_parse` below; every
+occurrence gets this one name, which is what makes it shared: the same-name equations of the rank
+system give all occurrences the same depth and counts).  Writing `s...` with a name `s` not used in
+the input instead is the renaming `.anonymous_ellipsis_axis ↦ s`, and the solutions correspond as
+in `rename_preserves_sols`. -/
+theorem anonymous_ellipsis_shared (inp : Input) (s : String) (hs : s ∉ inp.names) (ρ : Var → Nat)
+    (hok : renOK (swapName anonAxis s) inp ρ = true) :
+    let long := renameInput (swapName anonAxis s) inp
+    (Sat (rankSystem true long) ρ ↔ Sat (rankSystem true inp) ρ) ∧
+    (∀ σ, Sols inp ρ σ → namesOK long ρ = true →
+      ∃ σ', Sols long ρ σ' ∧ (∀ a ∈ inp.axes ρ, σ' (renVar (swapName anonAxis s) a) = σ a.2.2) ∧
+        shapesOf long ρ σ' = shapesOf inp ρ σ) ∧
+    (∀ σ', Sols long ρ σ' → namesOK inp ρ = true →
+      ∃ σ, Sols inp ρ σ ∧ (∀ a ∈ inp.axes ρ, σ a.2.2 = σ' (renVar (swapName anonAxis s) a)) ∧
+        shapesOf inp ρ σ = shapesOf long ρ σ') :=
+  rename_preserves_sols _ inp (swapName_inj anonAxis s inp.names hs) ρ hok
+
+open Einx.Notation in
+/-- **The parser model's treatment of the anonymous ellipsis** (`stage1/parse.py` lines 221–228, model
+`Notation/Parse.lean`): a lone `...` token parses to the ellipsis whose operand is the axis named
+`.anonymous_ellipsis_axis` (of zero width at the position of the dots), exactly the tree that `x...`
+produces for an operand `x` that parses to a named axis — with that name in place of `x`'s. -/
+theorem anonymous_ellipsis_parse {ts ts' : List Tok} (b e b' e' : Nat) (ipc ipc' : Bool) {t t' : Token} {x : Tok}
+    (h : strip ts = [.atom t]) (hop : findOp naryOps [.atom t] = none)
+    (h' : strip ts' = [x, .atom t']) (hop' : findOp naryOps [x, .atom t'] = none)
+    (ht : t.text = ellipsisLit) (ht' : t'.text = ellipsisLit)
+    (n : Str) (xb xe : Int) (hx : parse [x] x.b x.e false = .ok (.axis n none xb xe)) :
+    parse ts b e ipc = .ok (.ellipsis (.axis anonName none t.b t.b) t.b t.b t.e) ∧
+    parse ts' b' e' ipc' = .ok (.ellipsis (.axis n none xb xe) t'.b x.b t'.e) := by
+  constructor
+  · rw [parse_atom b e ipc h hop]
+    simp [ht, mkEllipsis, Expr.ndim]
+  · rw [parse_ell b' e' ipc' h' hop']
+    simp [ht', hx, mkEllipsis, Expr.ndim]
+
+/-- Non-vacuity: `... c, ...` against `(2, 3, 4)` and an unknown shape.  The renaming to `s...` is
+admissible, both forms are hygienic and solved to the same lengths; the second tensor's rank is
+known only because the ellipsis is shared. -/
+def exAnon : Input :=
+  { tensors := [⟨.list [.ellipsis "e0" (.axis anonAxis), .axis "c"], some [2, 3, 4]⟩,
+                ⟨.ellipsis "e1" (.axis anonAxis), none⟩],
+    constraints := [] }
+
+example : anonAxis = ".anonymous_ellipsis_axis" ∧ "s" ∉ exAnon.names ∧
+    renOK (swapName anonAxis "s") exAnon (toFun [("e0", 2), ("e1", 2)]) = true ∧
+    namesOK exAnon (toFun [("e0", 2), ("e1", 2)]) = true ∧
+    namesOK (renameInput (swapName anonAxis "s") exAnon) (toFun [("e0", 2), ("e1", 2)]) = true ∧
+    (renameInput (swapName anonAxis "s") exAnon).tensors.map (·.expr.render) = ["{s}... c", "{s}..."] := by
+  decide +kernel
+
+example : solveAll exAnon = .unique [("e1", 2), ("e0", 2)]
+      [("c", 4), (".anonymous_ellipsis_axis.1", 3), (".anonymous_ellipsis_axis.0", 2)] ∧
+    solveAll (renameInput (swapName anonAxis "s") exAnon) =
+      .unique [("e1", 2), ("e0", 2)] [("c", 4), ("s.1", 3), ("s.0", 2)] := by decide +kernel
+
+/-- `renOK` is not vacuous: renaming `a` to `b.0` next to `b...` merges two different variables. -/
+example : renOK (swapName "a" "b.0") ⟨[⟨.list [.axis "a", .ellipsis "e0" (.axis "b")], none⟩], []⟩ (toFun [("e0", 1)]) = false := by
   decide +kernel
 
 end Einx.Solve
